@@ -27,11 +27,13 @@ def run_check(prop, tier, seed, replay=None):
         rng = random.Random(seed * 104729 + 10)
         nsim = 160 if tier == 'quick' else 2000
         bs = C.build_harness('srvfam', work); bc = C.build_harness('clifam', work)
-        emit_replay = None
+        emit_replay = None; loop_replay = None
         if replay:
             rp = json.load(open(replay))
             if 'cell' in rp:      # a record of the emission table (see below): re-run that part only
                 emit_replay = rp['cell']; srv, cli = [], []
+            elif rp.get('family') == 'loop':
+                loop_replay = rp['scenario']; srv, cli = [], []
             else:
                 srv = [rp['scenario']] if rp['family'] == 'srv' else []; cli = [rp['scenario']] if rp['family'] == 'cli' else []
         else:
@@ -86,6 +88,12 @@ def run_check(prop, tier, seed, replay=None):
             for v in emit_v[:4]:
                 path = C.save_replay(prop, 'emit_%d' % (zlib.crc32(json.dumps(v, sort_keys=True).encode()) % 10**8), dict(v, property=prop))
                 violations.append(('emit ' + v['cell'][:120], path, dict(at=0, event=dict(record=v['record'][:200], why=v['why']))))
+        # the connections of server.Loop: closed exactly once each, whoever ends up owning them (LoopContract, guard tagged C10)
+        if replay is None or loop_replay is not None:
+            from . import loop_family as LF
+            lv, loop_info = LF.chan_part(prop, tier, seed, work, loop_replay)
+            violations += lv
+            emit_info.update(loop_info)
         probes = sum(t[0].get('st_probes', 0) for t in traces)
         sends = sum(1 for t in traces for e in t if e['ev'] == 'Send')
         cov = dict(states=sum(d['states'] for d in design) or 1, transitions=sum(d['transitions'] for d in design) or 1, design_runs=design,
